@@ -160,3 +160,20 @@ Example C20_direct_line_applies :
   0 < d /\ Sh d PL (r_cont_pc ds_loaded) (r_tr ds_loaded) ds_empty = ds_loaded
   /\ direct_safe Drv.Driver.dummy_oracle d PL 3 false ds_empty.
 Proof. exact ds_premises. Qed.
+
+(* ---- the symbol table is for messages only (Proofs/SymLens.v) ---- *)
+From BL Require Proofs.SymLens.
+
+(* every instruction, on a machine whose program carries another symbol table (and another trace marker): same result, same
+   machine; and the fetch loop, for as long as the machine does not trace: same events, same final machine.  With
+   C20_empty_line_is_invisible (same instructions and DATA, other symbol table) this is why an inserted code-less line can
+   change nothing but the line numbers in messages and trace output. *)
+Theorem C20_instruction_ignores_symbols : forall O h op c t syms r,
+  exists c' t', exec_op O h op (SymLens.L c t syms r) = (SymLens.L c' t' syms (fst (exec_op O h op r)), snd (exec_op O h op r)).
+Proof. intros O h op. exact (SymLens.lensed_exec_op_all O h op). Qed.
+Print Assumptions C20_instruction_ignores_symbols.
+
+Theorem C20_run_ignores_symbols : forall O fuel h r t syms, SymLens.quiet_run O fuel h r ->
+  exists t', exec_loop O fuel h (SymLens.L 0 t syms r) = (SymLens.L 0 t' syms (fst (exec_loop O fuel h r)), snd (exec_loop O fuel h r)).
+Proof. exact SymLens.run_ignores_symbols. Qed.
+Print Assumptions C20_run_ignores_symbols.
